@@ -24,6 +24,8 @@ type Ctx struct {
 	includeValidator *types.Func
 	pureNN           map[*ssa.Function]int
 	nonNilMemo       map[*types.Func]int
+	fieldMemo        map[string]*types.Var
+	setterMemo       map[*ssa.Function]*setterEval
 	nsOnlyFields     bool // ruleCollectBeforeUse: only the per-resource sets (map fields), not the cross-block name spaces
 	dispatch         map[string]*types.Func
 	pasteR           *pasteRoles
